@@ -721,8 +721,16 @@ pub fn main() {
             file_list,
             names,
         } => {
-            let input_files = get_input_list(file_list, names);
-            let input_names: Vec<&str> = input_files.iter().map(|t| &*t.0).collect();
+            let input_names_owned: Vec<String> = match file_list {
+                // One sample name per line (anything after whitespace is ignored)
+                Some(list_file) => std::fs::read_to_string(list_file)
+                    .expect("Unable to open file_list")
+                    .lines()
+                    .filter_map(|line| line.split_whitespace().next().map(str::to_string))
+                    .collect(),
+                None => names.clone().unwrap(),
+            };
+            let input_names: Vec<&str> = input_names_owned.iter().map(|n| n.as_str()).collect();
             let output_file = output.clone().unwrap_or(skf_file.to_string());
             log::info!("Loading skf file");
             if let Ok(mut ska_array) = MergeSkaArray::<u64>::load(skf_file) {
